@@ -628,8 +628,8 @@ def apply_patch(text, p, fired, where):
     old, new = p["old"], p["new"]
     cnt = p.get("count", 1)
     if p.get("flex"):
-        # whitespace-flexible anchor: any run of whitespace in the anchor (or none, between tokens split there) matches any run
-        rx = re.compile(r"\s*".join(re.escape(tok) for tok in old.split()))
+        # whitespace-flexible anchor: any run of whitespace and line comments (or none) between the anchor's tokens matches
+        rx = re.compile(r"(?:\s|//[^\n]*\n)*".join(re.escape(tok) for tok in old.split()))
         n = len(rx.findall(text))
         if (cnt == "any" and n == 0) or (cnt != "any" and n != cnt):
             raise Undecided(f"{p.get('rule', 'R4')} patch anchor {old!r} (flex) occurs {n} times in {where}, expected {cnt}")
